@@ -8,6 +8,7 @@ import (
 	"os"
 	"path/filepath"
 	"reflect"
+	"runtime/debug"
 	"sort"
 	"strings"
 	"sync"
@@ -247,13 +248,30 @@ func c26RoundTrip(res *run.Result, viol func(clause, sig, msg string), g *d2grap
 	if g == nil || g.Root == nil {
 		return false
 	}
-	b, err := d2graph.SerializeGraph(g)
+	// A panic inside the serde functions is a failed round trip (this property owns them), not
+	// a crash to be skipped.
+	var b []byte
+	var err error
+	g2 := &d2graph.Graph{}
+	var derr error
+	if pv, st := c26Recover(func() {
+		b, err = d2graph.SerializeGraph(g)
+		if err == nil {
+			derr = d2graph.DeserializeGraph(b, g2)
+		}
+	}); pv != nil {
+		sig, harness := run.PanicSig(fmt.Sprint(pv), st)
+		if harness {
+			panic(pv)
+		}
+		viol("C26.roundtrip-panic", "C26.roundtrip-panic:"+stage+":"+sig, fmt.Sprintf("serde round trip panicked (%s): %v\n%s\n%s", stage, pv, trunc(st, 1500), text))
+		return false
+	}
 	if err != nil {
 		res.Inc("vacuous_serialize_error_" + stage)
 		return false
 	}
-	g2 := &d2graph.Graph{}
-	if err := d2graph.DeserializeGraph(b, g2); err != nil {
+	if err := derr; err != nil {
 		viol("C26.deserialize-error", "C26.deserialize-error:"+stage, fmt.Sprintf("DeserializeGraph(SerializeGraph(g)) failed (%s): %v\n%s", stage, err, text))
 		return false
 	}
@@ -322,6 +340,21 @@ func c26RoundTrip(res *run.Result, viol func(clause, sig, msg string), g *d2grap
 	return true
 }
 
+// c26Recover runs f and returns the panic value and stack, if any.
+func c26Recover(f func()) (pv any, stack string) {
+	defer func() {
+		if e := recover(); e != nil {
+			pv, stack = e, string(debug.Stack())
+			// drop the frames of this deferred function: keep what is below the panic call
+			if i := strings.Index(stack, "\npanic("); i >= 0 {
+				stack = stack[i+1:]
+			}
+		}
+	}()
+	f()
+	return nil, ""
+}
+
 func c26FirstDiff(a, b []string) string {
 	for i := 0; i < len(a) && i < len(b); i++ {
 		if a[i] != b[i] {
@@ -362,7 +395,7 @@ func c26ExecPlugin() (d2plugin.Plugin, error) {
 	defer c26PluginMu.Unlock()
 	// d2 gives `<plugin> info` 10 s; on a starved machine that can expire, so discovery is
 	// retried (a wall-clock effect must never decide anything).
-	for try := 0; try < 6 && c26Plugin == nil; try++ {
+	for try := 0; try < 20 && c26Plugin == nil; try++ {
 		c26PluginErr = nil
 		c26FindPlugin()
 	}
